@@ -9,7 +9,10 @@ package obikmer
 //            single sequences with 1..2 IUPAC ambiguity codes; every window of fixed 80-mers alone and
 //            paired with every single-edit variant of the window for k in {5,16,31}.
 //   index  : every sequence over {a,c,g,t} up to a length bound for small k, and every window of fixed
-//            80-mers for EVERY k = 2..64 (even dense, odd sparse), with every key width that holds 2k bits.
+//            80-mers for EVERY k-mer size 2..64 asked of NewKmerMap in BOTH modes (the constructor adapts a
+//            size of the wrong parity, the size it settled on is read from the map), with every key width
+//            that holds 2k bits; Query on an index built by NewKmerMap from the 80-mers (same sizes, modes,
+//            widths) with windows of the 80-mers on both strands.
 //   4-mers : Count4Mer on every sequence up to a length bound (fresh and recycled buffers), Common4Mer on
 //            all pairs of a smaller bound; every ordered pair of sequences (empty one included) through one
 //            recycled buffer / table in the three ways the commands pass them.
@@ -39,9 +42,9 @@ import (
 )
 
 type c19case struct {
-	Kind   string   `json:"kind"` // graph | graphhist | index | count4 | count4hist | common4
-	K      int      `json:"k,omitempty"`
-	Seqs   []string `json:"seqs"`
+	Kind   string   `json:"kind"`        // graph | graphhist | index | query | count4 | count4hist | common4
+	K      int      `json:"k,omitempty"` // index, query: the k-mer size NewKmerMap is ASKED for
+	Seqs   []string `json:"seqs"`        // query: the query, then the indexed sequences
 	Counts []int    `json:"counts,omitempty"`
 	Sparse bool     `json:"sparse,omitempty"`
 	Width  int      `json:"width,omitempty"`
@@ -620,12 +623,24 @@ type c19km interface {
 	// run lists the canonical k-mers of seq; recycled: through a result buffer that served before
 	// (otherwise a nil buffer)
 	run(seq *obiseq.BioSequence, recycled bool) (vals [][4]uint64, strs []string, panicked string)
+	// ksize is the k-mer size the map works with: NewKmerMap adapts the size it is asked for to the
+	// mode (the statement's "even, and odd in sparse mode"), the oracle reads the outcome here
+	ksize() int
+	// query: the sequences of the index (see c19newKm, refs) sharing canonical k-mers with seq
+	query(seq *obiseq.BioSequence) (match map[*obiseq.BioSequence]int, panicked string)
 }
 
 type c19kmT[T obifp.FPUint[T]] struct {
 	km    *KmerMap[T]
 	limbs int
 	buf   []T
+}
+
+func (w *c19kmT[T]) ksize() int { return int(w.km.Kmersize) }
+
+func (w *c19kmT[T]) query(seq *obiseq.BioSequence) (match map[*obiseq.BioSequence]int, panicked string) {
+	panicked = c19try(func() { match = w.km.Query(seq) })
+	return
 }
 
 func (w *c19kmT[T]) run(seq *obiseq.BioSequence, recycled bool) (vals [][4]uint64, strs []string, panicked string) {
@@ -662,15 +677,36 @@ func (w *c19kmT[T]) run(seq *obiseq.BioSequence, recycled bool) (vals [][4]uint6
 	return
 }
 
-func c19newKm(width, k int, sparse bool) (km c19km, panicked string) {
+func c19mkKm[T obifp.FPUint[T]](limbs, k int, sparse bool, refs obiseq.BioSequenceSlice) c19km {
+	return &c19kmT[T]{km: NewKmerMap[T](refs, uint(k), sparse, -1), limbs: limbs}
+}
+
+var c19devnull *os.File
+
+// c19newKm builds the index the way the commands do: NewKmerMap(sequences to index, the k-mer size
+// ASKED for, mode, no occurrence limit). k is the size asked for, of either parity.
+func c19newKm(width, k int, sparse bool, refs ...*obiseq.BioSequence) (km c19km, panicked string) {
+	if len(refs) > 0 {
+		// NewKmerMap draws a progress bar on os.Stderr when it is given sequences
+		if c19devnull == nil {
+			c19devnull, _ = os.OpenFile(os.DevNull, os.O_WRONLY, 0)
+		}
+		if c19devnull != nil {
+			saved := os.Stderr
+			os.Stderr = c19devnull
+			defer func() { os.Stderr = saved }()
+		}
+	}
+	seqs := obiseq.BioSequenceSlice{}
+	seqs = append(seqs, refs...)
 	panicked = c19try(func() {
 		switch width {
 		case 64:
-			km = &c19kmT[obifp.Uint64]{km: NewKmerMap[obifp.Uint64](obiseq.BioSequenceSlice{}, uint(k), sparse, -1), limbs: 1}
+			km = c19mkKm[obifp.Uint64](1, k, sparse, seqs)
 		case 128:
-			km = &c19kmT[obifp.Uint128]{km: NewKmerMap[obifp.Uint128](obiseq.BioSequenceSlice{}, uint(k), sparse, -1), limbs: 2}
+			km = c19mkKm[obifp.Uint128](2, k, sparse, seqs)
 		case 256:
-			km = &c19kmT[obifp.Uint256]{km: NewKmerMap[obifp.Uint256](obiseq.BioSequenceSlice{}, uint(k), sparse, -1), limbs: 4}
+			km = c19mkKm[obifp.Uint256](4, k, sparse, seqs)
 		default:
 			panic("bad width")
 		}
@@ -731,23 +767,25 @@ func (x *c19ctx) kmFor(width, k int, sparse bool, cache map[[3]int]c19km) c19km 
 		x.r.Violate("NewKmerMap/panic", fmt.Sprintf("NewKmerMap[Uint%d](k=%d sparse=%v) panics: %s", width, k, sparse, p),
 			c19case{Kind: "index", K: k, Sparse: sparse, Width: width, Seqs: []string{strings.Repeat("a", k)}})
 		km = nil
-	} else {
-		// the constructor must not have altered k for a legal parity
-		var ks uint
-		switch m := km.(type) {
-		case *c19kmT[obifp.Uint64]:
-			ks = m.km.Kmersize
-		case *c19kmT[obifp.Uint128]:
-			ks = m.km.Kmersize
-		case *c19kmT[obifp.Uint256]:
-			ks = m.km.Kmersize
-		}
-		if int(ks) != k {
-			panic(fmt.Sprintf("harness: NewKmerMap changed k %d -> %d", k, ks))
-		}
+	} else if !x.kmInRange(km, width, k) {
+		km = nil
 	}
 	cache[key] = km
 	return km
+}
+
+// kmInRange: the k-mer size the map settled on (NewKmerMap adapts the size asked for to the mode) must be
+// one the statement speaks about (2..64) and one whose masks fit the key; otherwise nothing is demanded.
+func (x *c19ctx) kmInRange(km c19km, width, asked int) bool {
+	eff := km.ksize()
+	if eff != asked {
+		x.r.Count("index_maps_with_size_adapted_by_NewKmerMap", 1)
+	}
+	if eff < 2 || eff > 64 || 2*eff >= width {
+		x.r.Count(fmt.Sprintf("info_NewKmerMap[Uint%d](asked k=%d)_works_with_k=%d(unconstrained)", width, asked, eff), 1)
+		return false
+	}
+	return true
 }
 
 var c19kmCache = map[[3]int]c19km{}
@@ -760,13 +798,23 @@ func (x *c19ctx) indexCheck(c c19case) {
 	if c.Sparse {
 		mode = "sparse"
 	}
-	km := x.kmFor(c.Width, k, c.Sparse, c19kmCache)
+	// c.K is the size NewKmerMap is asked for; the map tells the size it works with (k from here on)
+	km := x.kmFor(c.Width, c.K, c.Sparse, c19kmCache)
 	if km == nil {
 		return
 	}
+	k = km.ksize()
+	adapted := ""
+	if k != c.K {
+		// a defect that shows only when the constructor had to adapt the size gets keys of its own
+		adapted = ":size-adapted-by-NewKmerMap"
+		r.Count("index_cases_with_size_adapted_by_NewKmerMap", 1)
+	}
 	r.Eval(1)
 	viol := func(key, format string, a ...any) {
-		x.violate(key, c, func() string { return fmt.Sprintf("Uint%d k=%d %s seq=%q: ", c.Width, k, mode, s) }, format, a...)
+		x.violate(key+adapted, c, func() string {
+			return fmt.Sprintf("Uint%d k=%d (NewKmerMap asked for %d) %s seq=%q: ", c.Width, k, c.K, mode, s)
+		}, format, a...)
 	}
 	rs := c19rc(s)
 	fv, fs, p := km.run(obiseq.NewBioSequence("f", []byte(s), ""), false)
@@ -850,6 +898,9 @@ func (x *c19ctx) indexCheck(c c19case) {
 		estr, ebases, fwSmaller, _ := c19canon(w, c.Sparse)
 		if fwSmaller && i > 0 {
 			r.Count("index_forward_smaller_after_first_window", 1)
+			if adapted != "" {
+				r.Count("index_size_adapted_forward_smaller_after_first_window", 1)
+			}
 		}
 		ev := c19limbsOf(ebases)
 		if fv[i] == ev && fs[i] == estr {
@@ -874,6 +925,148 @@ func (x *c19ctx) indexCheck(c c19case) {
 				"window %d %s (rc %s): got %s key %x, want %s key %x", i, w, c19rc(w), fs[i], fv[i], estr, ev)
 		}
 		return
+	}
+}
+
+// ---- Query on an index built by NewKmerMap from reference sequences
+
+type c19qidx struct {
+	c      c19case // Seqs[0]: the query (filled per case), Seqs[1:]: the indexed sequences
+	km     c19km
+	objs   []*obiseq.BioSequence
+	sets   []map[string]bool // model: canonical k-mers (bases of the key) of each indexed sequence
+	fwsets []map[string]bool // its k-mers as written (forward strand only), for the vacuity counters
+}
+
+// c19canonSet: the canonical k-mers of s on strings (windows holding an ambiguity code give none)
+func c19canonSet(s string, k int, sparse bool) (canon, fw map[string]bool) {
+	canon, fw = map[string]bool{}, map[string]bool{}
+	for i := 0; i+k <= len(s); i++ {
+		w := s[i : i+k]
+		if !c19pure(w) {
+			continue
+		}
+		_, bases, _, _ := c19canon(w, sparse)
+		canon[bases] = true
+		fw[w] = true
+	}
+	return
+}
+
+func (x *c19ctx) newQueryIndex(c c19case) *c19qidx {
+	q := &c19qidx{c: c}
+	for i, s := range c.Seqs[1:] {
+		q.objs = append(q.objs, obiseq.NewBioSequence(fmt.Sprintf("ref%d", i), []byte(s), ""))
+	}
+	km, p := c19newKm(c.Width, c.K, c.Sparse, q.objs...)
+	if p != "" {
+		x.r.Violate("NewKmerMap/panic:with-sequences", fmt.Sprintf("NewKmerMap[Uint%d](%d sequences, k=%d sparse=%v) panics: %s", c.Width, len(q.objs), c.K, c.Sparse, p), c)
+		return nil
+	}
+	if !x.kmInRange(km, c.Width, c.K) {
+		return nil
+	}
+	q.km = km
+	for _, s := range c.Seqs[1:] {
+		cs, fw := c19canonSet(s, km.ksize(), c.Sparse)
+		q.sets = append(q.sets, cs)
+		q.fwsets = append(q.fwsets, fw)
+	}
+	return q
+}
+
+// queryCheck: Query(s) and Query(reverse complement of s) must both report exactly the indexed sequences
+// that share at least one canonical k-mer with s (string model), with the same score on both strands
+// (same multiset of canonical k-mers). What the score is (Query counts one more than the shared
+// occurrences) is not constrained.
+func (x *c19ctx) queryCheck(q *c19qidx, s string) {
+	r := x.r
+	c := q.c
+	c.Seqs = append([]string{s}, q.c.Seqs[1:]...)
+	k := q.km.ksize()
+	mode, adapted := "dense", ""
+	if c.Sparse {
+		mode = "sparse"
+	}
+	if k != c.K {
+		adapted = ":size-adapted-by-NewKmerMap"
+	}
+	r.Eval(1)
+	viol := func(key, format string, a ...any) {
+		x.violate(key+":"+mode+adapted, c, func() string {
+			return fmt.Sprintf("Uint%d k=%d (NewKmerMap asked for %d) %s, index of %d sequences, query %q: ", c.Width, k, c.K, mode, len(q.objs), s)
+		}, format, a...)
+	}
+	canon, fw := c19canonSet(s, k, c.Sparse)
+	want := make([]bool, len(q.objs))
+	nwant, onlyRev := 0, false
+	for j := range q.objs {
+		for b := range canon {
+			if q.sets[j][b] {
+				want[j] = true
+				break
+			}
+		}
+		if want[j] {
+			nwant++
+			shared := false
+			for w := range fw {
+				if q.fwsets[j][w] {
+					shared = true
+					break
+				}
+			}
+			onlyRev = onlyRev || !shared
+		}
+	}
+	rs := c19rc(s)
+	var got [2]map[*obiseq.BioSequence]int
+	for strand, qs := range []string{s, rs} {
+		m, p := q.km.query(obiseq.NewBioSequence("q", []byte(qs), ""))
+		if p != "" {
+			viol("KmerMap.Query/panic", "strand %d: %s", strand, p)
+			return
+		}
+		got[strand] = m
+		r.Trans(1)
+	}
+	// the reverse complement of the query has the reverse complements of its k-mers: same canonical set
+	for strand, qs := range []string{s, rs} {
+		for j, o := range q.objs {
+			_, has := got[strand][o]
+			switch {
+			case want[j] && !has:
+				viol("KmerMap.Query/misses-a-sequence-sharing-a-canonical-kmer",
+					"query %q does not report indexed sequence %d %q (reported %d of %d expected)", qs, j, c.Seqs[1+j], len(got[strand]), nwant)
+				return
+			case !want[j] && has:
+				viol("KmerMap.Query/reports-a-sequence-sharing-no-canonical-kmer",
+					"query %q reports indexed sequence %d %q (score %d)", qs, j, c.Seqs[1+j], got[strand][o])
+				return
+			}
+		}
+		if len(got[strand]) != nwant {
+			viol("KmerMap.Query/reports-a-sequence-that-is-not-indexed", "query %q: %d sequences reported, %d indexed ones expected", qs, len(got[strand]), nwant)
+			return
+		}
+	}
+	for j, o := range q.objs {
+		if got[0][o] != got[1][o] {
+			viol("KmerMap.Query/strand-variant-score", "indexed sequence %d %q: score %d for the query, %d for its reverse complement %q", j, c.Seqs[1+j], got[0][o], got[1][o], rs)
+			return
+		}
+	}
+	if nwant > 0 {
+		r.Count("query_with_matches", 1)
+		if nwant < len(q.objs) {
+			r.Count("query_matches_some_but_not_all", 1)
+		}
+		if onlyRev {
+			r.Count("query_matches_only_through_the_reverse_strand", 1)
+			if adapted != "" {
+				r.Count("query_size_adapted_matches_only_through_the_reverse_strand", 1)
+			}
+		}
 	}
 }
 
@@ -1064,6 +1257,10 @@ func (x *c19ctx) dispatch(c c19case) {
 		x.count4HistCheck(c, [2]*obiseq.BioSequence{}, nil)
 	case "index":
 		x.indexCheck(c)
+	case "query":
+		if q := x.newQueryIndex(c); q != nil {
+			x.queryCheck(q, c.Seqs[0])
+		}
 	case "count4":
 		x.count4Check(c, &c19fm{buf: []byte{1, 2, 3}, tab: Table4mer{7: 9, 255: 1}})
 	case "common4":
@@ -1119,7 +1316,8 @@ func TestVerifC19(t *testing.T) {
 	r.Bound("graph_ambiguous_seq_maxlen", ambMax)
 	r.Bound("graph_ambiguity_codes", "r b n (1 position), n (2 positions)")
 	r.Bound("graph_k_large", "5,16,31 on windows of 3 fixed 80-mers (grid step "+fmt.Sprint(winStep)+") alone and with every single-edit variant")
-	r.Bound("index_k", "2..64 (even dense, odd sparse), widths with 2k < width")
+	r.Bound("index_k", "every size 2..64 asked of NewKmerMap x {dense, sparse} (a size of the wrong parity is adapted by the constructor: the model uses the size of the map), widths with 2k < width")
+	r.Bound("index_query", "index of the 3 fixed 80-mers built by NewKmerMap, same sizes x modes x widths; queries: windows of the 80-mers (quick: lengths k-1, k, k+1, 2k and every suffix window; thorough: all) and their reverse complements")
 	r.Bound("index_windows", "every window (start, length >= k) of 3 fixed 80-mers, and its reverse complement")
 	r.Bound("index_small_seq_maxlen", idxSmallMax)
 	r.Bound("count4_history_pair_maxlen", c4HistMax)
@@ -1167,7 +1365,8 @@ func TestVerifC19(t *testing.T) {
 			for _, c := range map[string][]string{
 				"A": {"single_distinct_acyclic"},
 				"B": {"graph_acyclic_with_edges", "graph_cyclic"},
-				"E": {"index_forward_smaller_after_first_window"},
+				"E": {"index_forward_smaller_after_first_window", "index_size_adapted_forward_smaller_after_first_window"},
+				"Q": {"query_matches_only_through_the_reverse_strand", "query_size_adapted_matches_only_through_the_reverse_strand", "query_matches_some_but_not_all"},
 				"G": {"count4_sequences_with_4mers"},
 				"H": {"common4_pairs_sharing"},
 				"J": {"graph_histories"},
@@ -1271,30 +1470,71 @@ func TestVerifC19(t *testing.T) {
 			}
 		}
 	})
-	// ---- E. index: every window of the 80-mers, every k = 2..64, every width that holds the key
+	// ---- E. index: every window of the 80-mers, every k-mer size 2..64 ASKED of NewKmerMap in BOTH modes
+	// (the constructor adapts a size of the wrong parity: even -> +1 sparse, odd -> -1 dense; the size it
+	// settled on is read from the map and is the k of the model), every width that holds the key
 	part("E", func() {
 		for _, ref := range refs {
 			for k := 2; k <= 64 && !expired(); k++ {
-				sparse := k%2 == 1
-				for _, width := range []int{64, 128, 256} {
-					if 2*k >= width {
-						continue // 1<<2k is not representable: NewKmerMap cannot build its masks
-					}
-					if !mine() {
-						continue
-					}
-					// shorter than k (one case), then every window of length >= k
-					x.indexCheck(c19case{Kind: "index", K: k, Sparse: sparse, Width: width, Seqs: []string{ref[:k-1]}})
-					for st := 0; st+k <= len(ref); st++ {
-						for ln := k; st+ln <= len(ref); ln++ {
-							x.indexCheck(c19case{Kind: "index", K: k, Sparse: sparse, Width: width, Seqs: []string{ref[st : st+ln]}})
+				for _, sparse := range []bool{false, true} {
+					for _, width := range []int{64, 128, 256} {
+						if 2*k >= width {
+							continue // 1<<2k is not representable: NewKmerMap cannot build its masks
+						}
+						if !mine() {
+							continue
+						}
+						km := x.kmFor(width, k, sparse, c19kmCache)
+						if km == nil {
+							continue
+						}
+						ke := km.ksize()
+						// shorter than k (one case), then every window of length >= k
+						x.indexCheck(c19case{Kind: "index", K: k, Sparse: sparse, Width: width, Seqs: []string{ref[:ke-1]}})
+						for st := 0; st+ke <= len(ref); st++ {
+							for ln := ke; st+ln <= len(ref); ln++ {
+								x.indexCheck(c19case{Kind: "index", K: k, Sparse: sparse, Width: width, Seqs: []string{ref[st : st+ln]}})
+							}
 						}
 					}
 				}
 			}
 		}
 	})
-	// ---- F. index: every short sequence, small k, every width; plus one ambiguity code
+	// ---- Q. index built by NewKmerMap from the three 80-mers (what obikmermatch / obikmersimcount do with
+	// their references), every size asked 2..64 in both modes, every width: Query with windows of the 80-mers
+	// and with their reverse complements
+	part("Q", func() {
+		for k := 2; k <= 64 && !expired(); k++ {
+			for _, sparse := range []bool{false, true} {
+				for _, width := range []int{64, 128, 256} {
+					if 2*k >= width {
+						continue
+					}
+					if !mine() {
+						continue
+					}
+					q := x.newQueryIndex(c19case{Kind: "query", K: k, Sparse: sparse, Width: width, Seqs: append([]string{""}, refs...)})
+					if q == nil {
+						continue
+					}
+					ke := q.km.ksize()
+					for _, ref := range refs {
+						x.queryCheck(q, ref[:ke-1])
+						for st := 0; st+ke <= len(ref); st++ {
+							for ln := ke; st+ln <= len(ref); ln++ {
+								// quick: lengths k, k+1, 2k and up to the end of the 80-mer; thorough: every window
+								if thorough || ln == ke || ln == ke+1 || ln == 2*ke || st+ln == len(ref) {
+									x.queryCheck(q, ref[st:st+ln])
+								}
+							}
+						}
+					}
+				}
+			}
+		}
+	})
+	// ---- F. index: every short sequence, small k asked in both modes, every width; plus one ambiguity code
 	part("F", func() {
 		small := verifkit.AllStrings("acgt", 1, idxSmallMax)
 		for i := 0; i < len(small) && !expired(); i += 256 {
@@ -1304,8 +1544,10 @@ func TestVerifC19(t *testing.T) {
 			for j := i; j < i+256 && j < len(small); j++ {
 				s := small[j]
 				for _, k := range []int{2, 3, 4, 5} {
-					for _, width := range []int{64, 128, 256} {
-						x.indexCheck(c19case{Kind: "index", K: k, Sparse: k%2 == 1, Width: width, Seqs: []string{s}})
+					for _, sparse := range []bool{false, true} {
+						for _, width := range []int{64, 128, 256} {
+							x.indexCheck(c19case{Kind: "index", K: k, Sparse: sparse, Width: width, Seqs: []string{s}})
+						}
 					}
 				}
 				if len(s) <= idxSmallMax-2 {
@@ -1315,8 +1557,10 @@ func TestVerifC19(t *testing.T) {
 						}
 						for _, code := range "nr" {
 							v := s[:p] + string(code) + s[p+1:]
-							for _, k := range []int{2, 3, 4} {
-								x.indexCheck(c19case{Kind: "index", K: k, Sparse: k%2 == 1, Width: 64, Seqs: []string{v}})
+							for _, k := range []int{2, 3, 4, 5} {
+								for _, sparse := range []bool{false, true} {
+									x.indexCheck(c19case{Kind: "index", K: k, Sparse: sparse, Width: 64, Seqs: []string{v}})
+								}
 							}
 						}
 					}
